@@ -368,12 +368,20 @@ impl Core {
         }
 
         let core_settings = context.settings.clone();
-        let tls_connection_meta = match context
-            .tls_demux
-            .read()
-            .unwrap()
-            .select(acceptor.alpn().iter().map(Vec::as_slice), sni)
-        {
+        // HTTP/3 is not spoken over TCP: an offer of it does not count here, the other
+        // protocols the client offered do
+        let alpn = acceptor.alpn();
+        let offered = alpn
+            .iter()
+            .map(Vec::as_slice)
+            .filter(|x| *x != tls_demultiplexer::Protocol::Http3.as_alpn().as_bytes());
+        if !alpn.is_empty() && offered.clone().next().is_none() {
+            return Err((
+                client_id,
+                "Dropping connection: only HTTP/3 is offered on a TCP connection".to_string(),
+            ));
+        }
+        let tls_connection_meta = match context.tls_demux.read().unwrap().select(offered, sni) {
             Ok(x) if x.protocol == tls_demultiplexer::Protocol::Http3 => {
                 return Err((
                     client_id,
